@@ -1,4 +1,5 @@
 /* proof units for /repo/lbuf.c - the real file, included verbatim */
+#include "pre.h"
 #include "lbuf.c"
 #define STRLEN_HOOK
 #define MEMCPY_HOOK
